@@ -27,6 +27,106 @@ func runC14(c *Ctx) {
 	c.Rule("C14.PIPE", "AGREE: the normalisation steps applied before extracting table references for the permission check are the ones applied before rewriting table references, and the identifier table of the mask flows to both")
 	c.Rule("C14.HEADER", "FLOW: with a header database, the permission check substitutes it for the default database and the rewriter resolves unqualified tables under it")
 	c.Rule("C14.SANDBOX", "PASS: database.New returns a handle only after lockdownExternalAccess returned nil")
+	// ---- PREMASK: rewrites that run on the raw text, before literals are masked
+	c.Rule("C14.PREMASK", "PROBE: every pattern of the rewrites that run on the raw statement before masking (time_bucket, date_trunc, URL-domain, LIKE reordering) — compiled from the source — only ever matches text in which single quotes are balanced; a match with an odd number of quotes means the replacement adds or drops a quote, and text that validation and the permission check saw as the inside of a literal becomes live SQL")
+	{
+		type rx struct {
+			name string
+			re   *regexp.Regexp
+			pos  token.Pos
+		}
+		var rxs []rx
+		for _, r := range c18InitRegexes(c.P, "internal/api") {
+			switch r.name {
+			case "patternTimeBucket2Args", "patternTimeBucket3Args", "patternDateTrunc", "patternEmptyCheckAfterLike", "patternEndEmptyCheck":
+				rxs = append(rxs, rx{r.name, r.re, r.call.Pos()})
+			}
+		}
+		for _, fname := range []string{"rewriteURLDomainExtraction", "rewriteURLDomainExtractionExtract"} {
+			if fn := c.P.Func("internal/api." + fname); fn != nil {
+				for i, call := range findCalls(fn, false, "regexp.MustCompile") {
+					if src, ok := constEvalString(call.Common().Args[0], 0); ok {
+						if re, err := regexp.Compile(src); err == nil {
+							rxs = append(rxs, rx{fmt.Sprintf("%s#%d", fname, i+1), re, call.Pos()})
+						}
+					}
+				}
+			}
+		}
+		bases := []string{
+			"SELECT host, time_bucket(INTERVAL '1 hour', time) AS b FROM secretdb.cpu -- ' FROM tenant.cpu",
+			"SELECT host, time_bucket('15 minutes', time) AS b FROM secretdb.cpu /* ' */ FROM tenant.cpu",
+			"SELECT time_bucket(INTERVAL '1 day', time, TIMESTAMP '2024-01-01 00:00:00') FROM t -- '",
+			"SELECT date_trunc('hour', time) FROM t -- '",
+			"SELECT REGEXP_EXTRACT(Referer, '^https?://(?:www\\.)?([^/]+)', 1) FROM t -- '",
+			"SELECT REGEXP_REPLACE(Referer, '^https?://(?:www\\.)?([^/]+)/.*$', '\\1') FROM t -- '",
+			"SELECT * FROM t WHERE url LIKE '%google%' AND title <> '' -- '",
+			"SELECT * FROM t WHERE title <> '' AND url LIKE '%google%' -- '",
+			"SELECT * FROM t WHERE url LIKE '%google%' AND n = 1 AND title <> '' ORDER BY n",
+			"SELECT count(*) FROM t WHERE host LIKE '%a%' AND region = 'x AND v <> '' ORDER BY v'",
+			"SELECT * FROM t WHERE url LIKE '%a%' AND x <> '''abc'",
+		}
+		var corpus []string
+		for _, b := range bases {
+			corpus = append(corpus, b)
+			for i := 0; i < len(b); i++ {
+				if b[i] == '\'' {
+					corpus = append(corpus, b[:i]+b[i+1:])
+				}
+			}
+		}
+		for _, r := range rxs {
+			var odd string
+			nMatch := 0
+			for _, txt := range corpus {
+				for _, m := range r.re.FindAllString(txt, -1) {
+					nMatch++
+					if strings.Count(m, "'")%2 == 1 && odd == "" {
+						odd = fmt.Sprintf("%q in %q", m, txt)
+					}
+				}
+			}
+			if nMatch == 0 {
+				c.Unk("C14.PREMASK", r.name+"|probed", r.pos, "the pattern matches nothing in the probe corpus; the corpus does not cover it")
+				continue
+			}
+			if odd != "" {
+				// the pattern alone can straddle a literal; accepted only if the code that applies it tests the quote parity of what it matched
+				guarded := false
+				for _, fn := range c.P.FuncsIn("internal/api") {
+					uses := false
+					for _, in := range instrs(fn, true) {
+						if ld, ok := in.(*ssa.UnOp); ok {
+							if g, ok := ld.X.(*ssa.Global); ok && g.Name() == r.name {
+								uses = true
+							}
+						}
+					}
+					if !uses {
+						continue
+					}
+					for _, call := range callsIn(fn, true) {
+						if callName(call) == "strings.Count" {
+							if sv, ok := constString(call.Common().Args[1]); ok && sv == "\x27" {
+								for _, ref := range *callValue(call).Referrers() {
+									if bo, ok := ref.(*ssa.BinOp); ok && bo.Op == token.REM {
+										guarded = true
+									}
+								}
+							}
+						}
+					}
+				}
+				if guarded {
+					c.OK("C14.PREMASK", r.name+"|balanced-quotes", r.pos, "the pattern can straddle a literal (%s), but the code applying it tests the quote parity of the matched text before rewriting", odd)
+					continue
+				}
+			}
+			c.Check(odd == "", "C14.PREMASK", r.name+"|balanced-quotes", r.pos, fmt.Sprintf("%d matches over the corpus, all with balanced quotes", nMatch), "the pre-mask pattern "+r.name+" matches "+odd+" — an odd number of quotes: the rewrite changes where a literal ends, so the statement that is executed is not the one that was validated and permission-checked (`time_bucket('1 hour, time) … FROM secretdb.cpu -- ' FROM tenant.cpu` is checked as tenant.cpu and reads secretdb)")
+		}
+		c.Floor("C14.PREMASK", 7, "three time patterns, two LIKE patterns, two URL call patterns")
+	}
+
 	if dq := c.MustFunc("C14.LEX", "internal/sql.dollarQuoteTag"); dq != nil {
 		lo, hi := dollarTagDigitRange(dq)
 		c.Check(lo && hi, "C14.LEX", "dollarQuoteTag|digits-after-first", dq.Pos(), "dollar-quote tags may contain digits", "dollarQuoteTag rejects digits inside a tag: `SELECT * FROM $t1$/data/otherdb/m/**/*.parquet$t1$` is a string literal in table position to DuckDB (a replacement scan of that path) but unmasked text here — stringLiteralInTablePosition does not refuse it and the permission extraction finds no table reference")
